@@ -32,7 +32,10 @@ pub fn run(pid: &str, c: &Case) {
         "C05" => c05(c),
         "C03" => c03(c),
         "C09" => c09(c),
-        "C01" => crate::ikprops::c01(c),
+        "C01" => { if c.s("part") == "B" { crate::ikprops::ik_search(c, "C01") } else { crate::ikprops::c01(c) } }
+        "C04" => crate::ikprops::c04(c),
+        "C06" => crate::ikprops::c06(c),
+        "C08" => crate::ikprops::c08(c),
         "C16" => c16(c),
         _ => { println!("reproduced=false"); println!("error=unknown property {}", pid); }
     }
